@@ -263,7 +263,12 @@ def gen_coverage(rng, box, srs, snap):
         return {'union': [{'bbox': P, 'srs': srs}, {'bbox': Q, 'srs': srs}]}
     P = [x0, y0, snap(x0 + w * 0.7), snap(y0 + h * 0.7)]
     Q = [snap(x0 + w * 0.3), snap(y0 + h * 0.3), x1, y1]
-    return {'intersection': [{'bbox': P, 'srs': srs}, {'bbox': Q, 'srs': srs}]}
+    parts = [{'bbox': P, 'srs': srs}, {'bbox': Q, 'srs': srs}]
+    # a third member (no random draw): intersection_coverage must fold over ALL members, P & Q & R, not P & (Q | R)
+    R = [snap(x0 + w * 0.5), y0, x1, y1]
+    if R[0] < P[2] and Q[0] < R[0]:
+        parts.append({'bbox': R, 'srs': srs})
+    return {'intersection': parts}
 
 
 def gen_res_range(rng, conf, grid_res):
